@@ -210,6 +210,9 @@ def cond_shape(cond):
 
 def rules(ctx):
     P, R = ctx.prog, ctx.res
+    ctx.rule('R12.8', "no function writes module-level state (memo / registry): results independent of earlier calls", floor=1)
+    from .C14 import no_module_state as _nms
+    _nms(ctx, 'R12.8')
     C = ctx.cprog
     ctx.rule('R12.7', "the order and the start the kernels see are the caller's: Matrix models keep their own integer labels "
                       "(identity mapping, N = max_index + 1), and the initial states are laid out in the rows the kernels read", floor=8)
